@@ -6,9 +6,8 @@
 //             satisfy the upstream contract (Spec.v cb_ok / closed at every flush), with flush points
 //             after every callback, after batches, or only at the end.  The proto messages handed to
 //             EventSequencer.Callback are recorded per flush.
-// mode loop : the real AsyncCalcGraph select loop (flush throttling + in-sync forwarding) around the
-//             real sequencer; see loop.go.
-// mode graph: the whole real calculation graph; see graph.go.
+// modes loop / graph (AsyncCalcGraph loop around the sequencer; whole calculation graph) are NOT implemented
+// (stubs.go); the shim for the loop (VerifNewLoop) is in place.
 //
 // Each case is printed as one JSON line carrying the case as a Coq term of type Spec.case.
 package main
